@@ -1,5 +1,221 @@
+/-
+Driver ops for C16: the definitions of `GT.Model.Affine` executed over ℚ (`"field":"Q"`) and
+over the Gaussian rationals ℚ(i) (`"field":"QI"`, numbers as `[re, im]`).
+-/
 import GT.Base.JsonQ
-open Lean GT.J
+import GT.Model.Affine
+import GT.Model.QI
+import Mathlib.Algebra.Order.Field.Rat
+import Mathlib.Algebra.Order.Ring.Abs
+open Lean GT.J GT GT.Affine
 namespace GT.Driver.C16
-def ops : List (String × Handler) := []
+
+/-- numbers of a field that travel over the line protocol -/
+class JField (K : Type) where
+  parse : Json → R K
+  out : K → Json
+
+instance : JField ℚ := ⟨toQ, ofQ⟩
+
+instance : JField QI where
+  parse j := do
+    let a ← arr j
+    if a.size ≠ 2 then throw "expected [re, im]"
+    return ⟨← toQ a[0]!, ← toQ a[1]!⟩
+  out z := .arr #[ofQ z.re, ofQ z.im]
+
+section generic
+variable {K : Type} [JField K] [Inhabited K]
+
+def kArr (j : Json) : R (Array K) := do (← arr j).mapM JField.parse
+def kArr2 (j : Json) : R (Array (Array K)) := do (← arr j).mapM kArr
+
+def vecOfArr (n : ℕ) (a : Array K) : R (Fin n → K) := do
+  if a.size ≠ n then throw s!"expected vector of length {n}, got {a.size}"
+  return fun i => a[i.1]!
+
+def matOfArr (m n : ℕ) (a : Array (Array K)) : R (Matrix (Fin m) (Fin n) K) := do
+  if a.size ≠ m then throw s!"expected {m} rows, got {a.size}"
+  if a.any (fun r => r.size ≠ n) then throw s!"expected rows of length {n}"
+  return fun i j => (a[i.1]!)[j.1]!
+
+def outVec {n : ℕ} (v : Fin n → K) : Json := .arr (Array.ofFn fun i => JField.out (v i))
+def outMat {m n : ℕ} (M : Matrix (Fin m) (Fin n) K) : Json :=
+  .arr (Array.ofFn fun i => outVec (M i))
+
+def finOf (n c : ℕ) : R (Fin n) :=
+  if h : c < n then pure ⟨c, h⟩ else throw "IndexError"
+
+variable [Field K] [DecidableEq K]
+
+/-- `affine_coords(xs, chart_index=c)` on a list of points (all-or-nothing guard) and
+`in_affine_chart` per point -/
+def affineOp (j : Json) : R Json := do
+  let xs : Array (Array K) ← kArr2 (← field j "xs")
+  let c ← natf j "c"
+  if xs.size = 0 then throw "empty"
+  match xs[0]!.size with
+  | 0 => throw "empty vector"
+  | n + 1 =>
+    let ci ← finOf (n + 1) c
+    let pts ← xs.toList.mapM (vecOfArr (n + 1))
+    let inch := Json.arr (pts.map fun x => Json.bool (inChart ci x)).toArray
+    match affineCoordsAll? ci pts with
+    | none => return Json.mkObj [("err", "GeometryError"), ("in_chart", inch)]
+    | some as => return Json.mkObj [("affine", .arr (as.map outVec).toArray), ("in_chart", inch)]
+
+/-- `affine_coords(xs, chart_index=None)`: chosen chart and affine coordinates -/
+def autoOp {L : Type} [LinearOrder L] (absf : K → L) (j : Json) : R Json := do
+  let xs : Array (Array K) ← kArr2 (← field j "xs")
+  if xs.size = 0 then throw "empty"
+  match xs[0]!.size with
+  | 0 => throw "empty vector"
+  | n + 1 =>
+    let pts ← xs.toList.mapM (vecOfArr (n + 1))
+    match pts with
+    | [] => throw "empty"
+    | p₀ :: rest =>
+      match affineCoordsAuto? absf p₀ rest with
+      | none => return Json.mkObj [("err", "GeometryError"), ("chart", .num (JsonNumber.fromNat (autoChart absf p₀ rest).1))]
+      | some (as, c) => return Json.mkObj [("affine", .arr (as.map outVec).toArray), ("chart", .num (JsonNumber.fromNat c.1))]
+
+/-- `projective_coords(as, chart_index=c)` per point -/
+def projOp (j : Json) : R Json := do
+  let as : Array (Array K) ← kArr2 (← field j "as")
+  let c ← natf j "c"
+  let n ← natf j "n"
+  let ci ← finOf (n + 1) c
+  let pts ← as.toList.mapM (vecOfArr n)
+  return .arr (pts.map fun a => outVec (projCoords ci a)).toArray
+
+/-- column layouts: `X` is (n+1)×m, `A` is n×m -/
+def colsOp (j : Json) : R Json := do
+  let c ← natf j "c"
+  let n ← natf j "n"
+  let m ← natf j "m"
+  let ci ← finOf (n + 1) c
+  let A : Matrix (Fin n) (Fin m) K ← matOfArr n m (← kArr2 (← field j "A"))
+  let X := projCoordsCols ci A
+  return Json.mkObj [("proj", outMat X), ("affine", outMat (affineCoordsCols ci X))]
+
+/-- `affine_linear_map(L, c, cv).proj_data`, applied to the points `ps` -/
+def linmapOp (j : Json) : R Json := do
+  let c ← natf j "c"
+  let n ← natf j "n"
+  let cv ← boolf j "cv"
+  let ci ← finOf (n + 1) c
+  let L : Matrix (Fin n) (Fin n) K ← matOfArr n n (← kArr2 (← field j "L"))
+  let T := affineLinearMap ci L cv
+  let ps ← (← kArr2 (← field j "ps")).toList.mapM (vecOfArr (n + 1))
+  return Json.mkObj [("T", outMat T), ("images", .arr (ps.map fun p => outVec (applyT T p)).toArray)]
+
+/-- `affine_translation(t, c).proj_data`, applied to the points `ps` -/
+def translationOp (j : Json) : R Json := do
+  let c ← natf j "c"
+  let n ← natf j "n"
+  let ci ← finOf (n + 1) c
+  let t : Fin n → K ← vecOfArr n (← kArr (← field j "t"))
+  let T := affineTranslation ci t
+  let ps ← (← kArr2 (← field j "ps")).toList.mapM (vecOfArr (n + 1))
+  return Json.mkObj [("T", outMat T), ("images", .arr (ps.map fun p => outVec (applyT T p)).toArray)]
+
+/-- `Subspace.intersect` on one pair: the model's answer from the observed kernel, and the
+kernel-contract residual `spansᵀ * ker` evaluated exactly -/
+def intersectOp (j : Json) : R Json := do
+  let n ← natf j "n"
+  let k1 ← natf j "k1"
+  let k2 ← natf j "k2"
+  let d ← natf j "d"
+  let p1 : Matrix (Fin k1) (Fin n) K ← matOfArr k1 n (← kArr2 (← field j "p1"))
+  let p2 : Matrix (Fin k2) (Fin n) K ← matOfArr k2 n (← kArr2 (← field j "p2"))
+  let kt : Matrix (Fin k1) (Fin d) K ← matOfArr k1 d (← kArr2 (← field j "ker_top"))
+  let kb : Matrix (Fin k2) (Fin d) K ← matOfArr k2 d (← kArr2 (← field j "ker_bot"))
+  let ker : Matrix (Fin k1 ⊕ Fin k2) (Fin d) K := Matrix.fromRows kt kb
+  return Json.mkObj [("result", outMat (intersect p1 ker)),
+    ("resid", outMat ((spans p1 p2).transpose * ker)),
+    ("via_p2", outMat ((-(ker.toRows₂).transpose) * p2))]
+
+/-- `diagonalize`: stored matrix and the conjugated transformation `M.inv() @ T @ M` -/
+def diagOp (j : Json) : R Json := do
+  let m ← natf j "m"
+  let V : Matrix (Fin m) (Fin m) K ← matOfArr m m (← kArr2 (← field j "V"))
+  let W : Matrix (Fin m) (Fin m) K ← matOfArr m m (← kArr2 (← field j "W"))
+  let P : Matrix (Fin m) (Fin m) K ← matOfArr m m (← kArr2 (← field j "P"))
+  return Json.mkObj [("M", outMat (diagonalize V)), ("conj", outMat (conjugated (diagonalize V) W P)),
+    ("eig_resid", outMat (P.transpose * V - V * Matrix.diagonal (fun i => (conjugated (diagonalize V) W P) i i)))]
+
+/-- `eigenvector` with a mask supplied by the caller (`eigenvalue=None`: all true) -/
+def eigvecMaskOp (ic : K → Bool) (j : Json) : R Json := do
+  let m ← natf j "m"
+  let units ← arr (← field j "units")
+  let us ← units.toList.mapM fun u => do
+    let vals : Fin m → K ← vecOfArr m (← kArr (← field u "vals"))
+    let V : Matrix (Fin m) (Fin m) K ← matOfArr m m (← kArr2 (← field u "V"))
+    pure (vals, V)
+  if (← boolf j "composite") then
+    return .arr ((eigenvectorComposite us ic).map outVec).toArray
+  match us with
+  | [(vals, V)] =>
+    match eigenvector vals V ic with
+    | none => throw "GeometryError"
+    | some v => return outVec v
+  | _ => throw "single matrix expected"
+
+end generic
+
+/-- `np.isclose(z, e)` for complex `z` and real `e`: `|z - e| ≤ atol + rtol |e|`, compared
+through squares -/
+def iscloseQI (e : ℚ) (z : QI) : Bool :=
+  let t : ℚ := 1 / 100000000 + 1 / 100000 * |e|
+  decide (QI.normSq (z - QI.ofQ e) ≤ t * t)
+
+def eigvecOp (j : Json) : R Json := do
+  let fld ← strf j "field"
+  let ev := fieldD j "eigenvalue" Json.null
+  match fld, ev with
+  | "Q", .null => eigvecMaskOp (K := ℚ) (fun _ => true) j
+  | "Q", e => do let e ← toQ e; eigvecMaskOp (K := ℚ) (isclose e) j
+  | "QI", .null => eigvecMaskOp (K := QI) (fun _ => true) j
+  | "QI", e => do let e ← toQ e; eigvecMaskOp (K := QI) (iscloseQI e) j
+  | _, _ => throw "unknown field"
+
+/-- `find_definite_isometry(normal)` from the observed QR factors, and the exact residuals of
+the QR / inverse contracts and of the conclusion of `hyperplaneTransform_spec` for the
+observed transformation `T` -/
+def hypOp (j : Json) : R Json := do
+  let m ← natf j "m"
+  match m with
+  | 0 => throw "empty"
+  | n + 1 =>
+    let Q : Matrix (Fin (n + 1)) (Fin (n + 1)) ℚ ← matf (n + 1) (n + 1) j "Q"
+    let T : Matrix (Fin (n + 1)) (Fin (n + 1)) ℚ ← matf (n + 1) (n + 1) j "T"
+    let normal ← vecf (n + 1) j "normal"
+    let r00 ← qf j "r00"
+    let sgn := npSign r00
+    let iso := definiteIsometry Q sgn
+    let Tm := hyperplaneTransform (fun _ => T) Q sgn
+    return Json.mkObj [("iso", ofMat iso), ("T", ofMat Tm), ("sgn", ofQ sgn),
+      ("qr_orth", ofMat (Q.transpose * Q - 1)),
+      ("qr_col", ofVec fun i => normal i - Q i 0 * r00),
+      ("inv_resid", ofMat (T * iso.transpose - 1)),
+      ("T_minus_iso", ofMat (Tm - iso)),
+      ("orth", ofMat (Tm.transpose * Tm - 1))]
+
+def byField (hq : Handler) (hqi : Handler) : Handler := fun j => do
+  match (← strf j "field") with
+  | "Q" => hq j
+  | "QI" => hqi j
+  | _ => throw "unknown field"
+
+def ops : List (String × Handler) :=
+  [("c16.affine", byField (affineOp (K := ℚ)) (affineOp (K := QI))),
+   ("c16.auto", byField (autoOp (K := ℚ) (fun x => |x|)) (autoOp (K := QI) QI.normSq)),
+   ("c16.proj", byField (projOp (K := ℚ)) (projOp (K := QI))),
+   ("c16.cols", byField (colsOp (K := ℚ)) (colsOp (K := QI))),
+   ("c16.linmap", byField (linmapOp (K := ℚ)) (linmapOp (K := QI))),
+   ("c16.translation", byField (translationOp (K := ℚ)) (translationOp (K := QI))),
+   ("c16.intersect", byField (intersectOp (K := ℚ)) (intersectOp (K := QI))),
+   ("c16.diag", byField (diagOp (K := ℚ)) (diagOp (K := QI))),
+   ("c16.eigvec", eigvecOp),
+   ("c16.hyp", hypOp)]
 end GT.Driver.C16
